@@ -56,7 +56,7 @@ def run(res, tier, rng):
         return len(r[1].split(".")) if r[1] else 0
 
     hosts = [("com",), ("x", "com"), ("a", "x", "com"), ("b", "a", "x", "com"), ("co", "uk"), ("x", "co", "uk"), ("a", "x", "co", "uk"),
-             ("y", "com"), ("X", "com"), ("blogspot", "com"), ("s", "blogspot", "com")]
+             ("y", "com"), ("X", "com"), ("blogspot", "com"), ("s", "blogspot", "com"), ("163", "com"), ("news", "163", "com"), ("1x", "co", "uk")]
     seg_chains = [[], ["a"], ["a", "b"], ["a", "b", "c"], ["b"], ["a", "c"]]
     universe = []
     for scheme, port in (("http", ""), ("https", ""), ("http", "8080")):
